@@ -93,7 +93,15 @@ def gen_history(rng, quick, requests=False):
     steps, opened = [], []
     n = rng.randrange(2, 7 if quick else 10)
     for i in range(n):
-        if not opened or (rng.random() < 0.3 and len(opened) < len(FILES)):
+        if opened and rng.random() < 0.12:
+            # the document is opened AGAIN (after an optional didClose): the client's version counter restarts at 1
+            f = rng.choice(opened)
+            if rng.random() < 0.5:
+                steps.append({"close": f})
+            steps.append({"open": f, "text": gen_text(rng, f)})
+        elif opened and rng.random() < 0.06:
+            steps.append({"change_empty": rng.choice(opened)})      # a didChange without content: nothing to publish
+        elif not opened or (rng.random() < 0.3 and len(opened) < len(FILES)):
             f = rng.choice([x for x in FILES if x not in opened])
             opened.append(f)
             steps.append({"open": f, "text": gen_text(rng, f)})
@@ -137,6 +145,20 @@ CORPUS = [
                {"change": "a.td", "text": 'include "b.td"\nclass A;\n'}, {"change": "a.td", "text": "\n"}]},
 ]
 
+
+CORPUS += [
+    # a document is changed twice, opened again (version restarts at 1) and changed once more with other problems
+    {"disk": {}, "steps": [{"open": "a.td", "text": "class A;\n"}, {"change": "a.td", "text": "class A;\ndef x : A;\n"},
+                           {"change": "a.td", "text": "class A;\ndef x : A;\ndef y : A;\n"},
+                           {"open": "a.td", "text": "def p : Gone1;\n"}, {"change": "a.td", "text": "def q : Gone2;\ndef r : Gone3;\n"}]},
+    {"disk": {}, "steps": [{"open": "a.td", "text": "def a : M0;\n"}, {"change": "a.td", "text": "def a : M1;\n"},
+                           {"change": "a.td", "text": "def a : M2;\n"}, {"change": "a.td", "text": "def a : M3;\n"},
+                           {"close": "a.td"}, {"open": "a.td", "text": "class Ok;\n"}, {"change": "a.td", "text": "def a : M4;\n"},
+                           {"change": "a.td", "text": "class Ok;\ndef b : Ok;\n"}]},
+    # a didChange without content between two edits
+    {"disk": {}, "steps": [{"open": "a.td", "text": "def a : M0;\n"}, {"change_empty": "a.td"},
+                           {"change": "a.td", "text": "class M0;\ndef a : M0;\n"}, {"change_empty": "a.td"}]},
+]
 
 # include cycles whose diagnostics depend on which member is the root; the root moves between the members
 CYCLE_A = 'include "b.td"\nclass X;\n'
@@ -435,7 +457,8 @@ def run(ctx):
         why = sl.session_failure(sc, out)
         if why is not None:
             stats["hangs"] += 1
-            oracle_fail.append({"history": h, "failures": [{"what": "server did not become idle: " + why}], "observed": []})
+            oracle_fail.append({"history": h, "failures": [{"what": "server did not become idle (with hooks: a notification was not followed by its diagnostics task, "
+                                                                        "i.e. it was not processed; its diagnostics were never published): " + why}], "observed": []})
             continue
         stats["histories"] += 1
         stats["notifications"] += n
